@@ -1,19 +1,26 @@
 use crate::common::Emitter;
 
 pub mod c05;
+pub mod c08;
 pub mod c09;
+pub mod c15;
 pub mod c16;
 pub mod c17;
 pub mod c18;
 pub mod diffparse;
 pub mod c19;
+pub mod c20;
 
 /// Registry: suite name → runner. Each runner replays `corpus` (a JSONL file of inputs) first
 /// when given, then generates `count` cases from `seed`.
 pub fn run(suite: &str, seed: u64, count: u64, corpus: Option<&str>, em: &mut Emitter) -> bool {
     match suite {
         "c05" => c05::run(seed, count, corpus, em),
+        "c08" => c08::run(seed, count, corpus, em),
+        "c08classify" => c08::run_classify(seed, count, corpus, em),
         "c05repo" => c05::run_repo(seed, count, corpus, em),
+        "c15" => c15::run(seed, count, corpus, em),
+        "c15repo" => c15::run_repo(seed, count, corpus, em),
         "c16" => c16::run(seed, count, corpus, em),
         "c17" => c17::run(seed, count, corpus, em),
         "c18" => c18::run(seed, count, corpus, em),
@@ -21,6 +28,7 @@ pub fn run(suite: &str, seed: u64, count: u64, corpus: Option<&str>, em: &mut Em
         "c19" => c19::run(seed, count, corpus, em),
         "c09" => c09::run(seed, count, corpus, em),
         "c09repo" => c09::run_repo(seed, count, corpus, em),
+        "c20" => c20::run(seed, count, corpus, em),
         _ => return false,
     }
     true
